@@ -70,7 +70,7 @@ def selftest_rule_half(ctx):
                     m["states"].append("NEW")
                     return c
 
-    return nf.corruption_selftest(ctx, mode="c40", n=8, module=MODULE, cfg=CFG, extra_env={"VERIF_NF_OFFLOAD": "1"}, corruptions=[
+    return nf.corruption_selftest(ctx, mode="c40", n=12, module=MODULE, cfg=CFG, extra_env={"VERIF_NF_OFFLOAD": "1"}, corruptions=[
         ("ct_match_lost", ct_match_lost), ("src_exclusion_lost", src_exclusion_lost),
         ("dst_exclusion_positive", dst_exclusion_positive), ("new_state_added", new_state_added)],
-        eligible=nontrivial, tries=1)
+        eligible=nontrivial, tries=8)
